@@ -158,6 +158,7 @@ NP.mod = _mod
 
 
 def _array(x, dtype=None, **kw):
+    dtype = _canon_dtype(dtype)
     if isinstance(x, SArr):
         return x.copy()
     if isinstance(x, (SList, SRange)):
@@ -186,7 +187,13 @@ def _symshape(shape):
     return sh, any(isinstance(s, SV) and concrete_value(s) is None for s in sh)
 
 
+def _canon_dtype(dtype):
+    from .instrument import _TYPE_BACK
+    return _TYPE_BACK.get(dtype, dtype)
+
+
 def _filled(shape, val, dtype):
+    dtype = _canon_dtype(dtype)
     sh, sym = _symshape(shape)
     dt = "complex" if dtype in (complex, _np.complex128, "complex") else ("int" if dtype in (int, _np.int64, "int") else ("bool" if dtype is bool else "real"))
     if sym:
@@ -208,6 +215,7 @@ NP.zeros_like = lambda a, dtype=None, **kw: _filled(a.shape, 0, dtype or (a.stor
 
 
 def _identity(n, dtype=float):
+    dtype = _canon_dtype(dtype)
     if isinstance(n, SV) and concrete_value(n) is None:
         return SArr(Store(lambda idx: SV(z3.If(idx[0] == idx[1], z3.RealVal(1), z3.RealVal(0))), (n, n), "real"))
     n = int(concrete_value(n)) if isinstance(n, SV) else int(n)
@@ -229,6 +237,7 @@ NP.eye = _eye
 
 
 def _arange(*a, dtype=None, **kw):
+    dtype = _canon_dtype(dtype)
     if any(isinstance(x, SV) and concrete_value(x) is None for x in a):
         if len(a) == 1:
             lo, hi = 0, a[0]
